@@ -66,7 +66,32 @@ def gen_case(g, stream):
             s["X"][t] = [v * 64 + 7 for v in s["X"][t]] if dtype.startswith("float") else s["X"][t]
     c["seqs"] = seqs
     c["probe"] = [g.dyvec(d) for _ in range(3)]
+    # how the data reaches the solver: one fit() call; partial_fit per sequence then fit(); the same with the
+    # regularisation set to its final value only before fit(); or a second fit of a node fitted before on other
+    # data with another lambda (accumulators and lambda must be those of the last fit)
+    c["mode"] = g.choice(["fit", "fit", "partial", "partial_ridge", "refit"])
+    if c["mode"] == "refit":
+        c["prior"] = {"X": [g.dyvec(d, a=3, k=8) for _ in range(5)], "Y": [g.dyvec(o, a=2, k=8) for _ in range(5)],
+                      "ridge": g.choice([0.125, 7.0])}
+    if c["mode"] == "partial_ridge":
+        c["ridge0"] = g.choice([2.0 ** -20, 5.0, 0.0])
     return c
+
+
+def gen_long_case(g):
+    """One long sequence (more steps than any blocking or chunking threshold a solver might use), small integer
+    data so that the exact optimum stays cheap."""
+    d, o = g.randint(1, 2), 1
+    L = g.choice([8192 + g.randint(1, 4000), 16384 + g.randint(1, 3000), 5000 + g.randint(0, 3000)])
+    warm = g.choice([0, 3])
+    X = [[float(g.randint(-3, 3)) for _ in range(d)] for _ in range(L)]
+    Y = [[float(g.randint(-2, 2))] for _ in range(L)]
+    # the tail carries a different trend than the head: dropping either changes the optimum
+    for t in range(L - 1500, L):
+        Y[t] = [float(2 * X[t][0] + 1)]
+    return {"kind": "ridge", "stream": "well", "d": d, "o": o, "layout": "2d", "lens": [L], "warmup": warm,
+            "bias": g.chance(0.5), "dtype": "float64", "ridge": g.choice([0.5, 3.0]), "seqs": [{"X": X, "Y": Y}],
+            "probe": [g.dyvec(d)], "mode": g.choice(["fit", "partial"]), "long": True}
 
 
 def run_impl(c):
@@ -75,13 +100,26 @@ def run_impl(c):
     Xs = [np.array(s["X"], dtype=float).astype(dt) for s in c["seqs"]]
     Ys = [np.array(s["Y"], dtype=float).astype(dt if dt.kind == "f" else np.int64 if dt.kind in "iu" else dt)
           for s in c["seqs"]]
-    node = Ridge(ridge=c["ridge"], input_bias=c["bias"])
-    if c["layout"] == "2d":
+    mode = c.get("mode", "fit")
+    node = Ridge(ridge=c["ridge0"] if mode == "partial_ridge" else c["prior"]["ridge"] if mode == "refit" else c["ridge"],
+                 input_bias=c["bias"])
+    if mode == "refit":
+        node.fit(np.array(c["prior"]["X"], dtype=float), np.array(c["prior"]["Y"], dtype=float))
+        node.ridge = c["ridge"]
+    if mode in ("partial", "partial_ridge"):
+        for X, Y in zip(Xs, Ys):
+            node.partial_fit(X, Y, warmup=c["warmup"])
+        if mode == "partial_ridge":
+            node.ridge = c["ridge"]
+        node.fit()
+    elif c["layout"] == "2d":
         node.fit(Xs[0], Ys[0], warmup=c["warmup"])
     elif c["layout"] == "3d":
         node.fit(np.stack(Xs), np.stack(Ys), warmup=c["warmup"])
     else:
         node.fit(Xs, Ys, warmup=c["warmup"])
+    if float(node.ridge) != float(c["ridge"]):
+        raise AssertionError(f"node.ridge is {node.ridge!r}, expected {c['ridge']!r}")
     Wout = np.asarray(node.Wout, dtype=float)
     b = np.asarray(node.bias, dtype=float).reshape(1, -1)
     probe = np.array(c["probe"], dtype=float)
@@ -126,6 +164,8 @@ def check_cases(ctx, cases):
         ctx.count(c, nontrivial=nontriv, obligation=ob)
         for k in ("stream", "layout", "bias", "dtype", "warmup", "d", "o"):
             ctx.stat(f"{k}={c[k]}")
+        ctx.stat(f"mode={c.get('mode', 'fit')}")
+        ctx.stat("long sequence (> 5000 steps)" if c.get("long") else "short sequence")
         ctx.stat(f"nseq={len(c['lens'])}")
         if mo[0] != "ok":
             raise common.FrameworkError("model rejected a C04 case: " + mo[1])
@@ -176,12 +216,14 @@ def check_cases(ctx, cases):
 def run(ctx):
     ctx.notes["rule"] = ("random datasets (2-D / 3-D / ragged list, 1-4 sequences of 2-12 steps, 1-5 features, 1-3 targets, "
                          "warm-up 0..min_len-1 with wild warm-up rows, bias on/off, float64/float32/int dtypes, "
-                         "lambda in {1/4,1/2,1,3,2^-6}) + an ill-conditioned stream (nearly collinear features, lambda ~1e-9). "
+                         "lambda in {1/4,1/2,1,3,2^-6}; data handed over by fit(), by partial_fit per sequence + fit(), the same with lambda set just before fit(), "
+                         "or by a second fit of a node fitted before on other data with another lambda) + a few sequences of 5000-20000 steps + an ill-conditioned stream (nearly collinear features, lambda ~1e-9). "
                          "non-trivial = at least 2 retained timesteps")
     g = ctx.gen
     cases = common.load_corpus("C04")
     cases += [gen_case(g, "well") for _ in range(ctx.n(120, 1500))]
     cases += [gen_case(g, "ill") for _ in range(ctx.n(30, 300))]
+    cases += [gen_long_case(g) for _ in range(ctx.n(3, 12))]
     check_cases(ctx, cases)
 
 
